@@ -4,6 +4,7 @@ import (
 	"fmt"
 	"math/rand"
 	gonet "net"
+	"runtime"
 	"sync"
 	"sync/atomic"
 	"time"
@@ -113,7 +114,7 @@ func connect(transport string, rng *rand.Rand, progress *int64, fin func(qnet.En
 }
 
 func c10(c *wk.Ctx) {
-	c.Note("rule", "each plan: one connection over a transport (harness stream with yields and read fragmentation, net.Pipe, unix, tcp, tls, fd-passing pipe), 2-16 sender goroutines released by a barrier, each sending its own numbered messages (payload 0 B - 256 KiB, content a keyed function of (sender, seq)) through EndPoint.Send; the receiving endpoint has an 'all' handler plus 2-5 handlers with overlapping filters (sender set, type, seq parity), queues sized for the whole traffic; in a third of the plans a further handler with a full one-slot queue selects everything as well; in half of the plans 1-4 one-shot handlers (keep = false) occupy lower slots and ReceiveAny handlers come and go during the traffic (each takes exactly one message); in half of the plans a handler registered with AddHandler (callback slow now and then) must be given an in-order subsequence of the arrivals. Oracle: the 'all' handler gets every (sender, seq) exactly once with intact payload and each sender's messages in order; every other handler gets exactly its filter applied to that sequence, in the same order; loss is decided by the quiescence detector. Stream churn: the receiver's handler set grows to 13-32 handlers and shrinks again step by step to the two real ones ('all', 'even ids'), a numbered batch after every change: each real handler gets exactly its selection, in order (sweep over handlers registered x handlers removed first). Distinct non-trivial = distinct (transport, plan) with at least two senders whose messages interleaved at the receiver.")
+	c.Note("rule", "each plan: one connection over a transport (harness stream with yields and read fragmentation, net.Pipe, unix, tcp, tls, fd-passing pipe), 2-16 sender goroutines released by a barrier, each sending its own numbered messages (payload 0 B - 256 KiB, content a keyed function of (sender, seq)) through EndPoint.Send; the receiving endpoint has an 'all' handler plus 2-5 handlers with overlapping filters (sender set, type, seq parity), queues sized for the whole traffic; in a third of the plans a further handler with a full one-slot queue selects everything as well; in half of the plans 1-4 one-shot handlers (keep = false) occupy lower slots and ReceiveAny handlers come and go during the traffic (each takes exactly one message); in a third of the plans sends on ANOTHER, broken connection of the process fail before and during the traffic (not judged; the observed connection must not notice); in half of the plans a handler registered with AddHandler (callback slow now and then) must be given an in-order subsequence of the arrivals. Oracle: the 'all' handler gets every (sender, seq) exactly once with intact payload and each sender's messages in order; every other handler gets exactly its filter applied to that sequence, in the same order; loss is decided by the quiescence detector. Stream churn: the receiver's handler set grows to 13-32 handlers and shrinks again step by step to the two real ones ('all', 'even ids'), a numbered batch after every change: each real handler gets exactly its selection, in order (sweep over handlers registered x handlers removed first). Distinct non-trivial = distinct (transport, plan) with at least two senders whose messages interleaved at the receiver.")
 	plansPer := c.Pick(8, 300)
 	c.Cases("plan", len(c10transports)*plansPer, func(i int, rng *rand.Rand) {
 		transport := c10transports[i%len(c10transports)]
@@ -263,6 +264,37 @@ func c10one(c *wk.Ctx, i int, rng *rand.Rand, transport string) {
 	start := make(chan struct{})
 	var wg sync.WaitGroup
 	var sendErr atomic.Value
+	// in a third of the plans ANOTHER connection of the process is broken (its peer is gone): sends on
+	// it fail before the traffic starts and keep failing while it flows. What happens on that
+	// connection is not judged; the connection under observation must not notice.
+	if rng.Intn(3) == 0 {
+		ca, cb := gonet.Pipe()
+		casualty := qnet.ConnEndPoint(ca)
+		cb.Close()
+		cr := rand.New(rand.NewSource(rng.Int63()))
+		failed := 0
+		sendBroken := func() {
+			hdr := qnet.NewHeader(uint8(1+cr.Intn(8)), 0xdead, 0xdead, 1, uint32(cr.Intn(1000)))
+			if casualty.Send(qnet.NewMessage(hdr, make([]byte, cr.Intn(2048)))) != nil {
+				failed++
+			}
+		}
+		for k := 2 + cr.Intn(5); k > 0; k-- {
+			sendBroken()
+		}
+		wg.Add(1)
+		go func() {
+			defer wg.Done()
+			defer casualty.Close()
+			<-start
+			for k := 0; k < 40; k++ {
+				sendBroken()
+				runtime.Gosched()
+			}
+			c.Count("sends_that_failed_on_another_broken_connection", int64(failed))
+		}()
+		c.Count("plans_with_a_broken_connection_next_to_the_observed_one", 1)
+	}
 	for s := 0; s < nSenders; s++ {
 		wg.Add(1)
 		r := rand.New(rand.NewSource(rng.Int63()))
